@@ -72,15 +72,16 @@ class FileWorld:
         self.plan, self.reg, self.nodes = plan, reg, nodes
 
     def next_time(self):
-        ts = [int(_os.stat(p).st_mtime) for p in self.paths.values() if _os.path.exists(p)]
-        return max(ts + [1_000_000_000]) + 10
+        """strictly increasing logical mtimes, 0.05 s apart (in nanoseconds): many writes fall into one whole second"""
+        ts = [_os.stat(p).st_mtime_ns for p in self.paths.values() if _os.path.exists(p)]
+        return max(ts + [1_000_000_000 * 10**9]) + 50_000_000
 
     def write_source(self, i, ver):
         p = self.paths[i]
         t = self.next_time()
         with _e4._real_open(p, "w") as fh:
             _json.dump({"src": i, "ver": ver}, fh)
-        _os.utime(p, (t, t))
+        _os.utime(p, ns=(t, t))
 
     def snapshot(self):
         """{i: None | (mtime, value | '<corrupt>')} straight from the files."""
@@ -94,7 +95,7 @@ class FileWorld:
                     v = _json.load(fh)
             except ValueError:
                 v = "<corrupt>"
-            snap[i] = (int(_os.stat(p).st_mtime), v)
+            snap[i] = (_os.stat(p).st_mtime_ns, v)
         return snap
 
     def run(self, rec=None):
@@ -107,7 +108,7 @@ class FileWorld:
                     def do2():
                         src = _os.path.join(world.d, detail[0])
                         t = world.next_time()
-                        _os.utime(src, (t, t))
+                        _os.utime(src, ns=(t, t))
                         return do()
                     return super().step(kind, detail, do2)
                 return super().step(kind, detail, do)
